@@ -64,6 +64,10 @@ type apRoute struct {
 	origin              uint8
 	med                 *uint32
 	segs                [][]uint32 // each: typ followed by members
+	// wire form of the announcement (harness only; the model does not see it):
+	// 0 = NEXT_HOP attribute, 1 = IPv4 NLRI in MP_REACH_NLRI with an IPv4 next hop,
+	// 2 = IPv4 NLRI in MP_REACH_NLRI with an IPv6 next hop (extended next hop, RFC 8950)
+	nh int
 }
 
 // line renders the route in the format lean/Driver/World.lean parseRoute reads
@@ -89,7 +93,19 @@ func (r *apRoute) line() string {
 			fmt.Fprintf(&sb, " %d", a)
 		}
 	}
+	if r.nh != 0 {
+		fmt.Fprintf(&sb, " nh%d", r.nh) // trailing harness-only token, stripped before the model sees the line
+	}
 	return sb.String()
+}
+
+// apModelLine strips the trailing harness-only tokens (wire form) of a protocol line.
+func apModelLine(line string) string {
+	f := strings.Fields(line)
+	for len(f) > 0 && (f[len(f)-1] == "nh1" || f[len(f)-1] == "nh2" || f[len(f)-1] == "mp") {
+		f = f[:len(f)-1]
+	}
+	return strings.Join(f, " ")
 }
 
 func apParseRoute(f []string) *apRoute {
@@ -114,9 +130,14 @@ func apParseRoute(f []string) *apRoute {
 		rt.segs = append(rt.segs, seg)
 		i += 2 + cnt
 	}
+	if i+1 < len(f) && strings.HasPrefix(f[i+1], "nh") {
+		fmt.Sscanf(f[i+1], "nh%d", &rt.nh)
+	}
 	return rt
 }
 
+// attrs builds the attributes in the route's wire form; `nexthop` is the sender's IPv4 address,
+// its last octet also makes the IPv6 next hop.
 func (r *apRoute) attrs(nexthop netip.Addr) []bgp.PathAttributeInterface {
 	attrs := []bgp.PathAttributeInterface{bgp.NewPathAttributeOrigin(r.origin)}
 	params := make([]bgp.AsPathParamInterface, 0, len(r.segs))
@@ -124,8 +145,22 @@ func (r *apRoute) attrs(nexthop netip.Addr) []bgp.PathAttributeInterface {
 		params = append(params, bgp.NewAs4PathParam(uint8(s[0]), append([]uint32{}, s[1:]...)))
 	}
 	attrs = append(attrs, bgp.NewPathAttributeAsPath(params))
-	nh, _ := bgp.NewPathAttributeNextHop(nexthop)
-	attrs = append(attrs, nh)
+	switch r.nh {
+	case 0:
+		nh, _ := bgp.NewPathAttributeNextHop(nexthop)
+		attrs = append(attrs, nh)
+	default:
+		nhAddr := nexthop
+		if r.nh == 2 {
+			b := nexthop.As4()
+			nhAddr = netip.AddrFrom16([16]byte{0x20, 0x01, 0x0d, 0xb8, 12: 0, 13: 0, 14: b[2], 15: b[3]})
+		}
+		mp, err := bgp.NewPathAttributeMpReachNLRI(bgp.RF_IPv4_UC, []bgp.PathNLRI{{NLRI: apNlri(r.pfx), ID: uint32(r.pathID)}}, nhAddr)
+		if err != nil {
+			panic(err)
+		}
+		attrs = append(attrs, mp)
+	}
 	if r.med != nil {
 		attrs = append(attrs, bgp.NewPathAttributeMultiExitDisc(*r.med))
 	}
@@ -136,6 +171,9 @@ func (r *apRoute) attrs(nexthop netip.Addr) []bgp.PathAttributeInterface {
 }
 
 func (r *apRoute) msg(from *vwPeer) *bgp.BGPMessage {
+	if r.nh != 0 {
+		return bgp.NewBGPUpdateMessage(nil, r.attrs(from.spec.addr), nil) // the NLRI is in MP_REACH_NLRI
+	}
 	return bgp.NewBGPUpdateMessage(nil, r.attrs(from.spec.addr), []bgp.PathNLRI{{NLRI: apNlri(r.pfx), ID: uint32(r.pathID)}})
 }
 
@@ -193,7 +231,7 @@ func (sc *apScenario) do(line string) {
 	f := strings.Fields(line)
 	n := func(i int) int { v := 0; fmt.Sscan(f[i], &v); return v }
 	sc.history = append(sc.history, line)
-	model := line
+	model := apModelLine(line)
 	switch f[0] {
 	case "peer":
 		w.addPeer(vwPeerSpec{kind: apKinds[n(2)], as: uint32(n(3)), rid: apIP(n(4)), addr: apIP(n(5)), sendMax: uint8(n(6)), addPathRx: n(7) == 1, allowOwnAs: uint8(n(8))})
@@ -223,7 +261,14 @@ func (sc *apScenario) do(line string) {
 		sc.latest[n(1)][fmt.Sprintf("%d#%d", rt.pfx, rt.pathID)] = true
 	case "wd":
 		vp := w.peers[n(1)]
-		w.recv(vp, bgp.NewBGPUpdateMessage([]bgp.PathNLRI{{NLRI: apNlri(n(2)), ID: uint32(n(3))}}, nil, nil))
+		wdNlri := []bgp.PathNLRI{{NLRI: apNlri(n(2)), ID: uint32(n(3))}}
+		if f[len(f)-1] == "mp" {
+			// the withdrawal travels in MP_UNREACH_NLRI (AFI 1 / SAFI 1)
+			un, _ := bgp.NewPathAttributeMpUnreachNLRI(bgp.RF_IPv4_UC, wdNlri)
+			w.recv(vp, bgp.NewBGPUpdateMessage(nil, []bgp.PathAttributeInterface{un}, nil))
+		} else {
+			w.recv(vp, bgp.NewBGPUpdateMessage(wdNlri, nil, nil))
+		}
 		sc.forget(n(2), vp.spec.addr, n(3))
 		delete(sc.latest[n(1)], fmt.Sprintf("%d#%d", n(2), n(3)))
 	case "ladd":
@@ -260,7 +305,7 @@ func (sc *apScenario) do(line string) {
 			rt := apParseRoute(f[3:])
 			m = rt.msg(src)
 			sc.latest[n(2)][fmt.Sprintf("%d#%d", rt.pfx, rt.pathID)] = true
-			model = "upbetween " + f[1] + " ann " + strings.Join(f[2:], " ")
+			model = apModelLine("upbetween " + f[1] + " ann " + strings.Join(f[2:], " "))
 		}
 		sc.raceRecv(src, m, func() { w.sessionUp(tgt, nil) })
 	case "flush":
@@ -409,10 +454,12 @@ func (sc *apScenario) oracle() {
 			}
 			eligible := map[uint32]uint32{} // marker -> local id
 			eligID := map[uint32]bool{}
+			v6nh := map[uint32]bool{} // marker -> exported with an IPv6 next hop (per-path MP_REACH message)
 			for _, p := range known {
 				if e := w.s.filterpath(vp.p, p, nil); e != nil && !e.IsWithdraw {
 					eligible[vwMarker(p.GetPathAttrs())] = p.LocalID()
 					eligID[p.LocalID()] = true
+					v6nh[vwMarker(p.GetPathAttrs())] = !e.GetNexthop().Is4()
 				}
 			}
 			view := map[uint32]uint32{} // id -> marker
@@ -441,6 +488,13 @@ func (sc *apScenario) oracle() {
 					"eligible(marker:id)": fmt.Sprint(eligible), "view(id:marker)": fmt.Sprint(view), "sent": fmt.Sprint(sent), "held": fmt.Sprint(held)}
 			}
 			for id, m := range view {
+				if sc.o != nil {
+					if v6nh[m] {
+						sc.o.stat("advertised_with_ipv6_next_hop", 1)
+					} else {
+						sc.o.stat("advertised_with_ipv4_next_hop", 1)
+					}
+				}
 				lid, ok := eligible[m]
 				if !ok {
 					sc.fail("addpath:ineligible-or-gone-route-advertised", det())
@@ -550,6 +604,24 @@ var apCorpus = map[string][]string{
 		"ann 1 0 2 3 0 0 0 0 0 0 0 0 0 1 2 3 65002 300 400",
 		"racewd 0 1 0 2",
 	},
+	// Not a defect of the unchanged tree: the wire forms meet in one destination. An RR client
+	// with ADD-PATH send (send-max 2) is sent two IPv4 routes with IPv6 next hops (RFC 8950: one
+	// MP_REACH_NLRI message per path, which must carry the local path-id) while a third, received
+	// as IPv4-in-MP_REACH with an IPv4 next hop, is held back; the first is withdrawn through
+	// MP_UNREACH_NLRI (promotion), the second is replaced by a NEXT_HOP-attribute version and
+	// withdrawn. A seeded change that dropped the path-id from the per-path message was missed
+	// before the generator mixed the forms.
+	"addpath-x-extended-nexthop": {
+		"peer 0 2 65000 167772161 3232235521 2 0 0",
+		"peer 1 0 65002 167772162 3232235522 0 1 0",
+		"up 0", "up 1",
+		"ann 1 0 0 1 0 0 0 0 0 0 0 0 0 1 2 1 65002 nh2",
+		"ann 1 0 1 2 0 0 0 0 0 0 0 0 0 1 2 2 65002 300 nh2",
+		"ann 1 0 2 3 0 0 0 0 0 0 0 0 0 1 2 3 65002 300 400 nh1",
+		"wd 1 0 0 mp",
+		"ann 1 0 1 4 0 0 0 0 0 0 0 0 0 1 2 2 65002 300",
+		"wd 1 0 1",
+	},
 }
 
 func apRunCorpus(t *testing.T, o *vOut) {
@@ -603,6 +675,9 @@ func apGenRoute(r *vRand, sc *apScenario, marker int, from *vwPeer, targets []*v
 	if len(seq) > 0 {
 		rt.segs = append(rt.segs, append([]uint32{2}, seq...))
 	}
+	// wire form: NEXT_HOP attribute / IPv4-in-MP_REACH / IPv6 next hop in MP_REACH (RFC 8950),
+	// mixed within one destination
+	rt.nh = r.pick(0, 0, 0, 1, 2, 2)
 	return rt
 }
 
@@ -738,7 +813,12 @@ func apRun(t *testing.T, o *vOut, r *vRand, nOps int, idx int) {
 				sort.Strings(ks)
 				fmt.Sscanf(ks[r.intn(len(ks))], "%d#%d", &pfx, &pid)
 			}
-			sc.do(fmt.Sprintf("wd %d %d %d", i, pfx, pid))
+			if r.chance(25) {
+				sc.do(fmt.Sprintf("wd %d %d %d mp", i, pfx, pid))
+				o.stat("op_wd_in_mp_unreach", 1)
+			} else {
+				sc.do(fmt.Sprintf("wd %d %d %d", i, pfx, pid))
+			}
 			o.stat("op_wd", 1)
 		case x < 176:
 			if r.chance(65) {
